@@ -4,7 +4,7 @@ import threading
 import time
 
 from .sched import S
-from .common import gen_stalls, base_knobs, liveness_bound, FL
+from .common import gen_stalls, gen_slow_starts, base_knobs, liveness_bound, FL
 
 
 def poll_instants(ad, n=14):
@@ -20,6 +20,7 @@ def gen(seed, tier):
     rng = random.Random(seed)
     knobs = base_knobs(rng, tier)
     knobs["stalls"] = gen_stalls(rng)
+    knobs["slow_starts"] = gen_slow_starts(rng)
     ad = knobs["accept_delay"] = rng.choice([0.01, 0.1, 0.25, 1.0])
     if rng.random() < 0.12:
         # family: several runners call accept() at (almost) the same instant - exactly one of them
